@@ -22,25 +22,32 @@
 (*             Ip(fam, bits)    one address                                *)
 (*             Cidr(fam, p)     prefix p (a 0/1 sequence, Len(p) = prefix  *)
 (*                              length inside the variable bits)           *)
-(*             Id(c)            a ClientID (canonical = folded spelling)   *)
-(*           All three are records of ONE shape so that TLC may compare    *)
-(*           them and ToJson prints them uniformly.                        *)
+(*             Id(c)            a ClientID written in lower case           *)
+(*             IdM(c)           the same ClientID written in another       *)
+(*                              letter case ("Client-1")                   *)
+(*           All are records of ONE shape so that TLC may compare them and *)
+(*           ToJson prints them uniformly.                                 *)
 (*  name     sequence of labels, canonical spelling, e.g. <<"b","a","com">>*)
-(*  pattern  [k, n]: k \in {"exact","domain","wild"} for  n , ||n^ , *.n   *)
+(*  pattern  [k, n, qt]: k \in {"exact","domain","wild","all"} for          *)
+(*           n , ||n^ , *.n , ||*^ ; qt = "" or a query type to which the  *)
+(*           rule is restricted ($dnstype=qt)                              *)
 (*  request  [addr, form, id, idcase, name, spell, qtype, proto]           *)
 (*           id = "" when the client sent no ClientID; idcase / spell /    *)
-(*           form / qtype are carried only so that the statement's         *)
-(*           quantifiers are visible: no operator reads them.              *)
+(*           form are carried only so that the statement's quantifiers are *)
+(*           visible: no operator reads them.  qtype is read only by       *)
+(*           type-restricted patterns.                                     *)
 (***************************************************************************)
 EXTENDS Naturals, Sequences, FiniteSets
 
 NoId == ""
 
-Ip(f, b)   == [k |-> "ip",   fam |-> f,  bits |-> b,    id |-> NoId]
-Cidr(f, p) == [k |-> "cidr", fam |-> f,  bits |-> p,    id |-> NoId]
-Id(c)      == [k |-> "id",   fam |-> "", bits |-> <<>>, id |-> c]
+Ip(f, b)   == [k |-> "ip",   fam |-> f,  bits |-> b,    id |-> NoId, sp |-> "lower"]
+Cidr(f, p) == [k |-> "cidr", fam |-> f,  bits |-> p,    id |-> NoId, sp |-> "lower"]
+Id(c)      == [k |-> "id",   fam |-> "", bits |-> <<>>, id |-> c,    sp |-> "lower"]
+IdM(c)     == [k |-> "id",   fam |-> "", bits |-> <<>>, id |-> c,    sp |-> "mixed"]
 
-Pat(k, n) == [k |-> k, n |-> n]
+Pat(k, n)      == [k |-> k, n |-> n, qt |-> ""]
+PatT(k, n, qt) == [k |-> k, n |-> n, qt |-> qt]
 
 \* ----------------------------------------------------------------- addresses
 \* p is a prefix of the bit string b ("Contains" of section 3).
@@ -55,23 +62,36 @@ EntryHasAddr(e, a) ==
        \/ e.k = "cidr" /\ IsPrefix(e.bits, a.bits)
 
 \* Entry e names the ClientID c.  A request without a ClientID is named by no
-\* entry ("absent" in the statement's quantifier).
-EntryHasId(e, c) == e.k = "id" /\ c # NoId /\ e.id = c
+\* entry ("absent" in the statement's quantifier).  The statement quantifies
+\* over the spelling of the ClientID a *request* carries (idcase: it never
+\* matters).  It does not say whether an *entry* written in another letter
+\* case names the ClientID: for such an entry both answers are admissible.
+EntryHasId(e, c)   == e.k = "id" /\ c # NoId /\ e.id = c /\ e.sp = "lower"
+EntryMayHaveId(e, c) == e.k = "id" /\ c # NoId /\ e.id = c /\ e.sp # "lower"
 
-\* "its address or its ClientID is <on the list>".
-Listed(list, a, c) == \E e \in list : EntryHasAddr(e, a) \/ EntryHasId(e, c)
+\* "its address or its ClientID is <on the list>": the set of admissible
+\* answers.
+Listed(list, a, c) ==
+    IF \E e \in list : EntryHasAddr(e, a) \/ EntryHasId(e, c) THEN {TRUE}
+    ELSE IF \E e \in list : EntryMayHaveId(e, c) THEN {TRUE, FALSE}
+    ELSE {FALSE}
 
 \* ------------------------------------------------------------ client decision
 \* "If the allowed list is non-empty a client is admitted exactly when its
 \*  address or its ClientID is allowed (the disallowed list is then ignored);
 \*  otherwise it is excluded exactly when its address or ClientID is
-\*  disallowed."
+\*  disallowed."  cfg is always the configuration posted LAST, as posted:
+\* nothing of an earlier configuration enters the decision.
 AllowListMode(cfg) == cfg.allowed # {}
 
-Excluded(cfg, a, c) ==
+\* Set of admissible answers to "is the client excluded".
+ExcludedSet(cfg, a, c) ==
     IF AllowListMode(cfg)
-    THEN ~Listed(cfg.allowed, a, c)
+    THEN {~x : x \in Listed(cfg.allowed, a, c)}
     ELSE Listed(cfg.disallowed, a, c)
+
+Excluded(cfg, a, c) == ExcludedSet(cfg, a, c) = {TRUE}
+Admitted(cfg, a, c) == ExcludedSet(cfg, a, c) = {FALSE}
 
 \* --------------------------------------------------------------------- names
 IsSuffix(s, n) == /\ Len(s) <= Len(n)
@@ -82,26 +102,33 @@ IsSuffix(s, n) == /\ Len(s) <= Len(n)
 OccursInside(s, n) ==
     \E off \in 1..(Len(n) - Len(s) - 1) : \A i \in 1..Len(s) : s[i] = n[off + i]
 
-\* The name n is on the list because of pattern p.
+\* The name n, asked with query type q, is on the list because of pattern p.
 \*   exact  n0   : that very name
 \*   domain n0   : ||n0^  -- n0 and every subdomain of n0
 \*   wild   n0   : *.n0   -- every proper subdomain of n0
-OnListBy(p, n) ==
+\*   all         : ||*^   -- every name
+\* and, if the pattern is restricted to a query type ($dnstype=qt), only for
+\* requests of that type.
+TypeOk(p, q) == p.qt = "" \/ p.qt = q
+NameOnListBy(p, n) ==
     CASE p.k = "exact"  -> n = p.n
       [] p.k = "domain" -> IsSuffix(p.n, n)
       [] p.k = "wild"   -> IsSuffix(p.n, n) /\ Len(n) > Len(p.n)
+      [] p.k = "all"    -> TRUE
+OnListBy(p, n, q) == TypeOk(p, q) /\ NameOnListBy(p, n)
 
 \* The blocked-hosts list is written in the rule engine's adblock syntax, in
 \* which "*.n0" is a wildcard over the text of the name: it also matches
 \* "x.n0.evil.org".  The statement ("a name on the blocked-hosts list") does
 \* not say whether such a name is "on the list", so for exactly this shape
 \* both answers are admissible.
-Undetermined(p, n) == p.k = "wild" /\ ~OnListBy(p, n) /\ OccursInside(p.n, n)
+Undetermined(p, n, q) ==
+    p.k = "wild" /\ TypeOk(p, q) /\ ~NameOnListBy(p, n) /\ OccursInside(p.n, n)
 
-\* Set of admissible answers to "is name n on the blocked-hosts list H".
-HostBlocked(H, n) ==
-    IF \E p \in H : OnListBy(p, n) THEN {TRUE}
-    ELSE IF \E p \in H : Undetermined(p, n) THEN {TRUE, FALSE}
+\* Set of admissible answers to "is name n / type q on the blocked-hosts list H".
+HostBlocked(H, n, q) ==
+    IF \E p \in H : OnListBy(p, n, q) THEN {TRUE}
+    ELSE IF \E p \in H : Undetermined(p, n, q) THEN {TRUE, FALSE}
     ELSE {FALSE}
 
 \* ------------------------------------------------------------------ response
@@ -117,7 +144,7 @@ Denial(proto) == IF proto \in SilentProto THEN "drop" ELSE "refused"
 \*   "drop"    no reply at all          "refused"  a reply with rcode REFUSED
 \*   "served"  processed normally (resolved, filtered, logged, counted)
 Denied(cfg, r) ==
-    IF Excluded(cfg, r.addr, r.id) THEN {TRUE} ELSE HostBlocked(cfg.hosts, r.name)
+    {x \/ h : x \in ExcludedSet(cfg, r.addr, r.id), h \in HostBlocked(cfg.hosts, r.name, r.qtype)}
 
 Outcomes(cfg, r) ==
     {IF d THEN Denial(r.proto) ELSE "served" : d \in Denied(cfg, r)}
